@@ -119,7 +119,7 @@ def cost_case(draw, classes=("E", "E", "F"), shapes=("tiny", "tiny", "tiny", "sm
 
 @st.composite
 def e2e_config(draw, front=("single", "single", "joint"), max_N=3, max_W=4, max_K=4, t_range=(30, 120),
-               limits=(1, 2, 3, 5, 30), betas=(0.0, 1.0, 10.0, 100.0, 1000.0), lam_forms=("scalar", "scalar", "const_matrix", "random_matrix"),
+               limits=(1, 2, 3, 5, 5, 30, 30), betas=(0.0, 1.0, 10.0, 100.0, 1000.0), lam_forms=("scalar", "scalar", "const_matrix", "random_matrix"),
                beta_forms=("scalar", "scalar", "scalar", "vector"), eps_values=(0,), allow_degenerate=False, scales=False,
                max_series=6, procs=(1,), allow_short=False, offsets=()):
     fr = draw(st.sampled_from(list(front)))
@@ -157,6 +157,7 @@ def e2e_config(draw, front=("single", "single", "joint"), max_N=3, max_W=4, max_
         "eps": draw(st.sampled_from(list(eps_values))),
         "num_processors": draw(st.sampled_from(list(procs))),
         "boundary_regime_flip": draw(st.booleans()),
+        "outliers": draw(st.sampled_from([0, 0, 0, 1, 1, 2, 3])),
     }
     if cfg["beta_form"] == "vector" and draw(st.booleans()):
         cfg["beta_vector_seed"] = draw(st.integers(0, 2 ** 16))
